@@ -31,6 +31,9 @@ type c05Case struct {
 	User   string `json:"user,omitempty"`
 	Pass   string `json:"pass,omitempty"`
 	DSN    int    `json:"dsn,omitempty"`
+	// kind "dsnval": caller-supplied DSN option strings (the option types are plain strings)
+	Notify []string `json:"notify,omitempty"`
+	Ret    string   `json:"ret,omitempty"`
 }
 
 var c05Setters = []string{"From", "EnvelopeFrom", "To", "Cc", "Bcc", "FromFormat", "AddToFormat", "AddBccFormat"}
@@ -200,6 +203,18 @@ func c05Exec(r *vf.Run, k c05Case) []finding {
 			opts = append(opts, mail.WithDSNRcptNotifyType(mail.DSNRcptNotifyNever))
 		}
 	}
+	if k.Kind == "dsnval" {
+		if len(k.Notify) > 0 {
+			var no []mail.DSNRcptNotifyOption
+			for _, n := range k.Notify {
+				no = append(no, mail.DSNRcptNotifyOption(n))
+			}
+			opts = append(opts, mail.WithDSNRcptNotifyType(no...))
+		}
+		if k.Ret != "" {
+			opts = append(opts, mail.WithDSNMailReturnType(mail.DSNMailReturnOption(k.Ret)))
+		}
+	}
 	cl, err := mail.NewClient(hx.Host, opts...)
 	if err != nil {
 		return nil // option refused the value: fine
@@ -321,7 +336,7 @@ func init() {
 	vf.Register(&vf.Check{
 		ID: "C05", Title: "envelope addresses and command lines cannot be smuggled",
 		Run: func(r *vf.Run) {
-			r.SetRule("local parts: ALL strings of length 1..L over {a . SP < > @ , ; : \\ \" ü ( +} offered bare and as quoted-string × domain {example.com, [192.0.2.1]} (thorough: length 4 for From and To) × setter {From, EnvelopeFrom, To, Cc, Bcc, FromFormat, AddToFormat, AddBccFormat} × {no DSN options, DSN return/notify parameters on the command lines}; 16 domain forms (UTF-8 and punycode labels, trailing dot, empty label, IPv4/IPv6 literals incl. an invalid one, leading/trailing hyphen, '%', 255 octets, '>' and a smuggled parameter) × 3 local parts × all setters; HELO names {plain, blank inside, CRLF + command, TAB, UTF-8, 300 chars, empty label}; user names/passwords over a hostile alphabet for PLAIN/LOGIN/CRAM-MD5/XOAUTH2/SCRAM; all 16 DSN option combinations; smtp.Client used directly: all call sequences of length 1..3 over {Hello, Mail, Rcpt, Verify with a hostile argument, Noop, Reset, Extension, Quit, Mail/Rcpt with a good argument} × 9 hostile arguments; every command line the client writes is judged by the strict RFC 5321 parser of the reference server and the parsed path must denote the mailbox the caller set (own RFC 5322 dot-atom/quoted-string reading of the input); distinct by case tuple")
+			r.SetRule("local parts: ALL strings of length 1..L over {a . SP < > @ , ; : \\ \" ü ( +} offered bare and as quoted-string × domain {example.com, [192.0.2.1]} (thorough: length 4 for From and To) × setter {From, EnvelopeFrom, To, Cc, Bcc, FromFormat, AddToFormat, AddBccFormat} × {no DSN options, DSN return/notify parameters on the command lines}; 16 domain forms (UTF-8 and punycode labels, trailing dot, empty label, IPv4/IPv6 literals incl. an invalid one, leading/trailing hyphen, '%', 255 octets, '>' and a smuggled parameter) × 3 local parts × all setters; HELO names {plain, blank inside, CRLF + command, TAB, UTF-8, 300 chars, empty label}; user names/passwords over a hostile alphabet for PLAIN/LOGIN/CRAM-MD5/XOAUTH2/SCRAM; all 16 DSN option combinations; DSN option VALUES as caller-supplied strings (keywords with padding, CR/LF, other case, lists, junk) for NOTIFY and RET; smtp.Client used directly: all call sequences of length 1..3 over {Hello, Mail, Rcpt, Verify with a hostile argument, Noop, Reset, Extension, Quit, Mail/Rcpt with a good argument} × 9 hostile arguments; every command line the client writes is judged by the strict RFC 5321 parser of the reference server and the parsed path must denote the mailbox the caller set (own RFC 5322 dot-atom/quoted-string reading of the input); distinct by case tuple")
 			r.Assume("a bare local part that is not an RFC 5322 dot-atom has no defined mailbox: only the line discipline is judged for it", "SMTPUTF8 is advertised so that UTF-8 local parts are legal on the wire")
 			L := 3
 			var cases []c05Case
@@ -390,6 +405,17 @@ func init() {
 			}
 			for d := 0; d < 16; d++ {
 				cases = append(cases, c05Case{Kind: "dsn", DSN: d})
+			}
+			// DSN option values are plain strings: keywords with padding, line breaks, other case, lists, junk
+			dsnVals := []string{"SUCCESS", "SUCCESS\r\n", "DELAY\n", "\r\nSUCCESS", "SUCCESS ", " FAILURE", "success", "SUCCESS,FAILURE", "NEVER\r\nRSET", "FAILURE\tX", "X", "%s", "SUCCESS\x00"}
+			for _, a := range dsnVals {
+				cases = append(cases, c05Case{Kind: "dsnval", Notify: []string{a}})
+				for _, b := range []string{"FAILURE", "DELAY\r\n", " NEVER"} {
+					cases = append(cases, c05Case{Kind: "dsnval", Notify: []string{a, b}})
+				}
+			}
+			for _, rv := range []string{"FULL", "HDRS", "FULL\r\n", "HDRS ", " FULL", "full", "FULL RET=HDRS", "HDRS\r\nRSET", "X", "%d"} {
+				cases = append(cases, c05Case{Kind: "dsnval", Ret: rv}, c05Case{Kind: "dsnval", Ret: rv, Notify: []string{"SUCCESS"}})
 			}
 			// smtp.Client used directly: all call sequences of length 1..3 over its methods with a hostile argument
 			hostile := []string{"a b", "x\r\nRSET", "x\nNOOP", "x\ry", "a\tb", "a@b.example> BODY=8BITMIME", "plain.example", "%s%d", ""}
